@@ -254,9 +254,11 @@ impl<T: Types> FlushWorker<T> {
             return Ok(());
         }
 
+        // Forget an older file only after its sync succeeded; otherwise a
+        // later flush would report success without that file being durable.
         while files.len() > 1 {
-            let f = files.remove(0);
-            f.f.sync_data()?;
+            files[0].f.sync_data()?;
+            files.remove(0);
         }
 
         // The second last and before are all closed,
